@@ -73,7 +73,15 @@ def generate(rng, tier):
             ops.append({"op": "write", "path": f, "c": tree[f]["c"], "fault": "restore_content"})
     late = {k for k, v in tree.items() if v.get("late")}
     env["tree"] = {k: {kk: vv for kk, vv in v.items() if kk != "late"} for k, v in tree.items() if k not in late}
-    return {"world": env, "ops": ops, "fault_seed": rng.getrandbits(30)}
+    prior = None
+    if rng.random() < 0.2:
+        # the destination already holds the packing list of another card, flattened earlier the same day; that card
+        # was sealed with an ignore pattern of its own, which has nothing to do with this history
+        names = [os.path.basename(f) for f in gen.tree_files(env["tree"])] or ["x.bin"]
+        n_ = rng.choice(names)
+        prior = {"pattern": rng.choice(["*" + os.path.splitext(n_)[1] if "." in n_ else n_, n_, "late_*", "*.bin", "*.mov"]),
+                 "via": rng.choice(["create", "create", "flatten"])}
+    return {"world": env, "ops": ops, "fault_seed": rng.getrandbits(30), "prior": prior}
 
 
 def execute(sc, ctx):
@@ -103,6 +111,23 @@ def execute(sc, ctx):
     src_before = scen.all_ascmhl_files(w.root)
     snap_before = core.snapshot(w.root)
     dest = os.path.join(w.sandbox, "flat dest")
+    prior = sc.get("prior")
+    lists_before = set()
+    if prior:
+        other = os.path.join(w.mount, "other card")
+        w.apply_env({"op": "write", "path": "@M/other card/o1.bin", "c": {"text": "other card 1"}})
+        w.apply_env({"op": "write", "path": "@M/other card/take.mov", "c": {"text": "other card 2"}})
+        extra = ["-i", prior["pattern"]]
+        r0 = w.run_cmd(["create", other, "-h", "md5"] + (extra if prior["via"] == "create" else []))
+        r0b = w.run_cmd(["flatten", other, dest] + (extra if prior["via"] == "flatten" else []))
+        if r0.outcome != ("exit", 0) or r0b.outcome != ("exit", 0):
+            ctx.probe("prior_flatten_failed_na")
+            prior = None
+        else:
+            ctx.fault("destination_with_earlier_packing_list")
+        for d, subs, files in os.walk(dest):
+            lists_before |= {os.path.join(d, f) for f in files if f.endswith(".mhl")}
+        w.advance(1_000_000)
     r = w.run_cmd(["flatten", w.root, dest])
     ctx.evaluations += 1
     ctx.steps += 1
@@ -116,7 +141,7 @@ def execute(sc, ctx):
     lists = []
     for d, subs, files in os.walk(dest):
         for f in files:
-            if f.endswith(".mhl"):
+            if f.endswith(".mhl") and os.path.join(d, f) not in lists_before:
                 lists.append(os.path.join(d, f))
     if len(lists) != 1:
         ctx.violate({"kind": "packing-list-count", "cause": str(len(lists))}, f"{lists}")
@@ -179,6 +204,13 @@ def execute(sc, ctx):
             return
     if clean and same_content and cur_files:
         victim = sorted(cur_rel)[sc["fault_seed"] % len(cur_rel)]
+        if prior:
+            import fnmatch
+
+            hit = [p_ for p_ in sorted(cur_rel) if fnmatch.fnmatch(os.path.basename(p_), prior["pattern"])]
+            if hit:
+                victim = hit[sc["fault_seed"] % len(hit)]
+                ctx.probe("victim_matches_pattern_of_earlier_packing_list")
         if not w.apply_env({"op": "rewrite", "path": victim, "seed": sc["fault_seed"], "fault": "content_fault"}):
             w.apply_env({"op": "append", "path": victim, "c": {"text": "!"}, "fault": "content_fault"})
         r2 = w.run_cmd(["verify", w.root, "-pl", pl])
@@ -196,6 +228,8 @@ def execute(sc, ctx):
 def shrink_candidates(sc):
     for ops in ddmin_list(sc["ops"], 1):
         yield dict(sc, ops=ops)
+    if sc.get("prior"):
+        yield dict(sc, prior=None)
     protected = set()
     for o in sc["ops"]:
         if scen.is_cmd(o):
